@@ -23,7 +23,7 @@
 (***************************************************************************)
 EXTENDS Rat, Integers, Sequences, FiniteSets
 CONSTANTS Tau,      \* relative tolerance on log-likelihoods, "1/1000000000"
-          TauX      \* relative round-off allowance for exp(log(x)) in the log parameterisation
+          TauX      \* relative round-off allowance for parameter values that went through a coordinate map
 
 None == "none"
 
@@ -66,15 +66,19 @@ ReportedLL(k, raw, scale) == IF raw = None THEN None
 (***************************************************************************)
 (* Comparisons                                                             *)
 (***************************************************************************)
+\* Parameter values are compared up to the round-off of the coordinate maps between the user's
+\* parameters and the inner optimiser's variables (exp(log(x)); NLopt's internal rescaling of x):
+\* relative TauX.  Fixed parameters are not transformed and are compared exactly (FixedKept).
 Slack(a, b) == RMul(TauX, RMax(RAbs(a), RAbs(b)))
-\* a <= b; in the log parameterisation up to the round-off of exp(log(.))
-LeqX(a, b, lg) == RLeq(a, IF lg THEN RAdd(b, Slack(a, b)) ELSE b)
-SameX(a, b, lg) == a # None /\ b # None /\ IsNum(a) /\ IsNum(b) /\
-                   (IF lg THEN RLeq(RAbs(RSub(a, b)), Slack(a, b)) ELSE a = b)
-SamePoint(x, y, lg) == Len(x) = Len(y) /\ \A i \in 1..Len(x) : SameX(x[i], y[i], lg)
-InBounds(v, l, u, lg) == /\ v # None /\ IsNum(v)
-                         /\ (l = None \/ LeqX(l, v, lg))
-                         /\ (u = None \/ LeqX(v, u, lg))
+LeqX(a, b) == RLeq(a, RAdd(b, Slack(a, b)))
+SameX(a, b) == a # None /\ b # None /\ IsNum(a) /\ IsNum(b) /\ RLeq(RAbs(RSub(a, b)), Slack(a, b))
+SamePoint(x, y) == Len(x) = Len(y) /\ \A i \in 1..Len(x) : SameX(x[i], y[i])
+InBounds(v, l, u) == /\ v # None /\ IsNum(v)
+                     /\ (l = None \/ LeqX(l, v))
+                     /\ (u = None \/ LeqX(v, u))
+InBoundsExact(v, l, u) == /\ v # None /\ IsNum(v)
+                          /\ (l = None \/ RLeq(l, v))
+                          /\ (u = None \/ RLeq(v, u))
 IsLL(a) == a # None /\ IsNum(a)
 CloseLL(a, b) == IsLL(a) /\ IsLL(b) /\ RLeq(RAbs(RSub(a, b)), RMul(Tau, RMax(RAbs(a), RAbs(b))))
 \* a <= b up to Tau
@@ -129,27 +133,27 @@ StartPoint == [i \in 1..N |-> IF fixed[i] = None THEN p0[i] ELSE fixed[i]]
 \* every local optimiser first evaluates the model at the user's starting point
 FirstEvalIsStart ==
     (phase # "idle" /\ IsLocal(kind)) =>
-        /\ (evals # <<>> => SamePoint(evals[1].p, StartPoint, log))
+        /\ (evals # <<>> => SamePoint(evals[1].p, StartPoint))
         /\ (Returned => evals # <<>>)
 \* the model is never evaluated outside the bounds
 EvalInBounds ==
     \A k \in 1..Len(evals) :
         /\ Len(evals[k].p) = N
-        /\ \A i \in 1..N : InBounds(evals[k].p[i], lb[i], ub[i], log)
+        /\ \A i \in 1..N : InBounds(evals[k].p[i], lb[i], ub[i])
 \* fixed parameters reach every evaluation, and the caller, unchanged
 FixedKept ==
     /\ \A k \in 1..Len(evals) : Len(evals[k].p) = N /\ \A i \in 1..N : fixed[i] # None => evals[k].p[i] = fixed[i]
     /\ Returned => (Len(ret.p) = N /\ \A i \in 1..N : fixed[i] # None => ret.p[i] = fixed[i])
 \* free parameters come back within the bounds
 ReturnInBounds ==
-    Returned => (Len(ret.p) = N /\ \A i \in 1..N : fixed[i] = None => InBounds(ret.p[i], lb[i], ub[i], log))
+    Returned => (Len(ret.p) = N /\ \A i \in 1..N : fixed[i] = None => InBounds(ret.p[i], lb[i], ub[i]))
 \* the returned parameters have the likelihood that is reported as the optimum; an API that reports
 \* only parameters must hand back a point it evaluated (the best one for the brute-force search)
 ReturnMatchesProbe ==
     phase = "probed" =>
         /\ IsLL(probe.f)
         /\ IF ret.f # None THEN CloseLL(ret.f, probe.f)
-           ELSE \E k \in 1..Len(evals) : SamePoint(evals[k].p, ret.p, log) /\ CloseLL(evals[k].f, probe.f)
+           ELSE \E k \in 1..Len(evals) : SamePoint(evals[k].p, ret.p) /\ CloseLL(evals[k].f, probe.f)
         /\ ReturnsBest(kind) => \A k \in 1..Len(evals) : IsLL(evals[k].f) => LeqLL(evals[k].f, probe.f)
 \* the primary optimiser returns a point at least as good as the start point
 NoWorseThanStart ==
@@ -166,7 +170,7 @@ Violated == {c \in DOMAIN Clauses : ~Clauses[c]}
 (***************************************************************************)
 PerturbInBounds(out, l, u) ==
     /\ Len(out) = Len(l) /\ Len(out) = Len(u)
-    /\ \A i \in 1..Len(out) : InBounds(out[i], l[i], u[i], FALSE)
+    /\ \A i \in 1..Len(out) : InBoundsExact(out[i], l[i], u[i])
 \* Reference construction: scale by a power of two, then pull to a margin inside each bound
 \* (1% of the bound's magnitude), finally into the bounds themselves if they are closer
 \* together than the margins.
